@@ -1,7 +1,6 @@
 package core
 
 import (
-	"errors"
 	"io"
 	"os"
 	"regexp"
@@ -40,16 +39,17 @@ type Keys struct {
 
 // WaitAvailableKeys waits until an input key is either read from standard input,
 // or directly returns if the key stack still/already has available keys.
-func WaitAvailableKeys(keys *Keys, cfg *inputrc.Config) {
+// It returns an error when the input stream has ended or cannot be read.
+func WaitAvailableKeys(keys *Keys, cfg *inputrc.Config) error {
 	keys.cfg = cfg
 
 	if len(keys.buf) > 0 && !keys.mustWait {
-		return
+		return nil
 	}
 
 	// The macro engine might have fed some keys
 	if len(keys.macroKeys) > 0 {
-		return
+		return nil
 	}
 
 	keys.mutex.Lock()
@@ -68,8 +68,8 @@ func WaitAvailableKeys(keys *Keys, cfg *inputrc.Config) {
 		// We will either read keyBuf from user, or an EOF
 		// send by ourselves, because we pause reading.
 		keyBuf, err := keys.readInputFiltered()
-		if err != nil && errors.Is(err, io.EOF) {
-			return
+		if err != nil {
+			return err
 		}
 
 		if len(keyBuf) == 0 {
@@ -93,7 +93,7 @@ func WaitAvailableKeys(keys *Keys, cfg *inputrc.Config) {
 			keys.mutex.RUnlock()
 		}
 
-		return
+		return nil
 	}
 }
 
@@ -225,7 +225,18 @@ func (k *Keys) ReadKey() (key rune, isAbort bool) {
 		buf := <-k.keysOnce
 		key = []rune(string(buf))[0]
 	default:
-		buf, _ := k.readInputFiltered()
+		var buf []byte
+
+		for len(buf) == 0 {
+			var err error
+
+			// The input stream ended or failed: abort the command reading the key.
+			buf, err = k.readInputFiltered()
+			if err != nil {
+				return inputrc.Esc, true
+			}
+		}
+
 		key = []rune(string(buf))[0]
 	}
 
